@@ -245,7 +245,7 @@ theorem no_empty_principal_partial (ca : CAKeys) (prov : Prov) (hp : prov = .jwk
     simp only [tokenCert]
     split
     · exact this
-    · intro hm; simp at hm; exact hsub hm.symm
+    · intro hm; simp at hm; exact hsub hm
 
 /-! ## 4. signer_by_type -/
 
@@ -304,51 +304,28 @@ theorem popAuthorize_true {cfg : PopCfg} {op : PopOp} {c : PopCert} {t : PopTok}
     (op = .renew → cfg.disableRenewal = false ∧ c.notYet = false ∧
         (c.expired = true → cfg.allowAfterExpiry = true)) := by
   unfold popAuthorize at h
-  split at h
-  · cases h
-  · rename_i hv
-    split at h
-    · cases h
-    · rename_i hf
-      split at h
-      · cases h
-      · rename_i htk
-        simp only [Bool.or_eq_true, Bool.not_eq_true', not_or, Bool.not_eq_false] at htk
-        obtain ⟨⟨⟨ht1, ht2⟩, ht3⟩, ht4⟩ := htk
-        have hsig : (c.ct = 1 → c.sigUser = true) ∧ (c.ct ≠ 1 → c.sigHost = true) := by
-          by_cases h1 : c.ct = 1 <;> simp [h1] at hf ⊢ <;> exact hf
-        refine ⟨hsig.1, hsig.2, ht1, ht2, ht3, ht4, ?_, ?_, ?_, ?_⟩
-        · intro hop
-          have : (decide (op ≠ PopOp.renew)) = true := by simpa using hop
-          simp [this] at hv
-          exact hv
-        · intro hop; subst hop; simpa using h
-        · intro hop
-          cases op with
-          | revoke => exact absurd rfl hop
-          | rekey => simpa using h
-          | renew =>
-            simp only at h
-            split at h
-            · cases h
-            · rename_i h2; simpa using h2
-        · intro hop; subst hop
-          simp only at h
-          split at h
-          · cases h
-          · split at h
-            · cases h
-            · rename_i hd
-              split at h
-              · cases h
-              · rename_i hn
-                split at h
-                · cases h
-                · rename_i he
-                  refine ⟨by simpa using hd, by simpa using hn, ?_⟩
-                  intro hex
-                  simp [hex] at he
-                  exact he
+  simp only [Bool.and_eq_true] at h
+  obtain ⟨⟨⟨⟨⟨⟨hv, hf⟩, ht1⟩, ht2⟩, ht3⟩, ht4⟩, hg⟩ := h
+  have hsig : (c.ct = 1 → c.sigUser = true) ∧ (c.ct ≠ 1 → c.sigHost = true) := by
+    by_cases h1 : c.ct = 1 <;> simp [h1] at hf ⊢ <;> exact hf
+  refine ⟨hsig.1, hsig.2, ht1, ht2, ht3, ht4, ?_, ?_, ?_, ?_⟩
+  · intro hop
+    simp [hop] at hv
+    exact hv
+  · intro hop; subst hop; simpa [opGate] using hg
+  · intro hop
+    cases op with
+    | revoke => exact absurd rfl hop
+    | rekey => simpa [opGate] using hg
+    | renew => simp [opGate] at hg; exact hg.1.1.1
+  · intro hop; subst hop
+    simp [opGate] at hg
+    obtain ⟨⟨⟨_, hd⟩, hn⟩, he⟩ := hg
+    refine ⟨hd, hn, ?_⟩
+    intro hex
+    rcases he with he | he
+    · rw [hex] at he; cases he
+    · exact he
 
 /-- **pop_requirements.** A renewal or rekey is only ever granted for a *host* certificate whose
     signature verifies under a configured *host* CA key, presented with a token that verifies
